@@ -330,6 +330,9 @@ def gen_plan(ctx, round_index, quick):  # pylint: disable=too-many-locals,too-ma
     sleepers.append({"sid": sid("s"), "kind": "sleep", "k": k, "n": n, "timeout": 1, "pattern": "one-slow",
                      "sleeps": [2.5 if i == slow else 0.001 * rng.randint(0, 5) for i in range(n)],
                      "generator_args": True})
+    # a batch of one job with several workers requested: the timeout applies all the same
+    sleepers.append({"sid": sid("s"), "kind": "sleep", "k": rng.choice([2, 3, 8, 16]), "n": 1, "timeout": 1,
+                     "pattern": "single-job", "sleeps": [2.5], "generator_args": rng.random() < 0.5})
     k = rng.choice([2, 3])
     sleepers.append({"sid": sid("e"), "kind": "execute", "k": k, "n": k + 1, "pattern": "one-slow", "timeout": 1,
                      "codes": [3] * (k + 1), "delays": [0.01] * k + [2.5], "verbose": False})
